@@ -2,6 +2,7 @@ import Driver.Util
 import MmtkModel.Model.SpaceDescriptor
 import Driver.Layout.Desc
 import Driver.Layout.CSM
+import Driver.Layout.Resolve
 /-! package `Layout` (see CONVENTIONS.md): register components in `step`.
 `cfg` lines this package cares about may be matched here too (they must answer "ok");
 every package sees every `cfg` line. -/
@@ -13,11 +14,14 @@ structure St where
   /-- the process-global `VMLayout` (`cfg layout 32|64`) -/
   layout : Mmtk.Layout.VMLayout := Mmtk.Layout.layout64
   csm : CSM.St := {}
+  resolve : Resolve.St := {}
 
 /-- `none` = not a component of this package. -/
 def step (st : St) (toks : List String) : Option (St × String) :=
   match toks with
   | "desc" :: args => some (st, Desc.run st.layout st.debug args)
+  | "resolve" :: args =>
+    let (c, o) := Resolve.step st.layout st.debug st.resolve args; some ({ st with resolve := c }, o)
   | "csm" :: args => let (c, o) := CSM.step st.csm args; some ({ st with csm := c }, o)
   | _ => none
 
